@@ -1,39 +1,550 @@
 package main
 
 import (
+	"fmt"
 	"go/token"
+	"go/types"
+	"strings"
 
 	"golang.org/x/tools/go/ssa"
 )
 
-// acquire / release are the hooks for lock invariants (filled in by the
-// lock-invariant layer).
-func (x *Exec) acquire(cfg *Config, m Term, pos token.Pos) {}
-func (x *Exec) release(cfg *Config, m Term, pos token.Pos) {}
+// ---------------------------------------------------------------------------
+// Lock declarations
+// ---------------------------------------------------------------------------
 
-func (x *Exec) condNotify(cfg *Config, c Term, all bool, pos token.Pos) {}
-
-func (x *Exec) condWait(cfg *Config, c Term, pos token.Pos) {
-	unsupported("sync.Cond.Wait (wake-up layer not enabled for this function)")
+type lockDecl struct {
+	pkg, strct, field, recv string
+	invs    []*Clause
+	havoc   []Expr
+	stutter Expr
+	conds   map[string]bool // condition-variable fields tied to this mutex
 }
 
+// parseHead splits "Queue.mu(q)" into struct, field, receiver name.
+func parseHead(h string) (strct, field, recv string, ok bool) {
+	op := strings.Index(h, "(")
+	cp := strings.Index(h, ")")
+	dot := strings.Index(h, ".")
+	if op < 0 || cp < op || dot < 0 || dot > op {
+		return
+	}
+	return strings.TrimSpace(h[:dot]), strings.TrimSpace(h[dot+1 : op]), strings.TrimSpace(h[op+1 : cp]), true
+}
+
+func (P *Program) lockDecls() map[string]*lockDecl {
+	if P.locks != nil {
+		return P.locks
+	}
+	P.locks = map[string]*lockDecl{}
+	for short, cf := range P.Contracts {
+		for head, cls := range cf.LockInv {
+			st, fl, rv, ok := parseHead(head)
+			if !ok {
+				continue
+			}
+			P.locks[short+"."+st+"."+fl] = &lockDecl{pkg: short, strct: st, field: fl, recv: rv, invs: cls, conds: map[string]bool{}}
+		}
+	}
+	for short, cf := range P.Contracts {
+		for _, raw := range cf.Raw["lockhavoc"] {
+			eq := strings.Index(raw, " = ")
+			if eq < 0 {
+				continue
+			}
+			st, fl, _, ok := parseHead(raw[:eq])
+			if !ok {
+				continue
+			}
+			ld := P.locks[short+"."+st+"."+fl]
+			if ld == nil {
+				continue
+			}
+			for _, m := range splitTopLevel(raw[eq+3:], ',') {
+				e, err := ParseExpr(strings.TrimSpace(m))
+				if err == nil {
+					ld.havoc = append(ld.havoc, e)
+				}
+			}
+		}
+		for _, raw := range cf.Raw["stutter"] {
+			eq := strings.Index(raw, " = ")
+			if eq < 0 {
+				continue
+			}
+			st, fl, _, ok := parseHead(raw[:eq])
+			if !ok {
+				continue
+			}
+			if ld := P.locks[short+"."+st+"."+fl]; ld != nil {
+				if e, err := ParseExpr(strings.TrimSpace(raw[eq+3:])); err == nil {
+					ld.stutter = e
+				}
+			}
+		}
+		for _, raw := range cf.Raw["cond"] {
+			// cond Queue.nempty lock mu
+			fs := strings.Fields(raw)
+			if len(fs) == 3 && fs[1] == "lock" {
+				sp := strings.SplitN(fs[0], ".", 2)
+				if len(sp) == 2 {
+					if P.condLocks == nil {
+						P.condLocks = map[string]string{}
+					}
+					P.condLocks[short+"."+sp[0]+"."+sp[1]] = fs[2]
+				}
+			}
+		}
+	}
+	return P.locks
+}
+
+func orgKey(o *origin) (string, string) {
+	name, _ := fieldNameOf(o.STyp, o.Field)
+	return typeName(o.STyp), name
+}
+
+func fieldNameOf(styp types.Type, idx int) (string, types.Type) {
+	s := styp.Underlying().(*types.Struct)
+	return s.Field(idx).Name(), s.Field(idx).Type()
+}
+
+func (x *Exec) lockDeclFor(o *origin) *lockDecl {
+	if o == nil {
+		return nil
+	}
+	tn, fn := orgKey(o)
+	return x.P.lockDecls()[tn+"."+fn]
+}
+
+func (x *Exec) lockEnv(cfg *Config, ld *lockDecl, o *origin) *SpecEnv {
+	env := &SpecEnv{x: x, cfg: cfg, st: cfg.st, old: cfg.old, vars: map[string]SpecVal{}, pkg: x.pkgOf(ld.pkg), cf: x.P.Contracts[ld.pkg]}
+	env.vars[ld.recv] = SpecVal{T: o.Base, Ty: types.NewPointer(o.STyp)}
+	return env
+}
+
+// splitConj flattens an expression into its top-level conjuncts, expanding a
+// single predicate call one level.
+func (x *Exec) splitConj(env *SpecEnv, e Expr) []Expr {
+	switch ee := e.(type) {
+	case EBinary:
+		if ee.Op == "&&" {
+			return append(x.splitConj(env, ee.L), x.splitConj(env, ee.R)...)
+		}
+	}
+	return []Expr{e}
+}
+
+// ---------------------------------------------------------------------------
+// acquire / release / wait
+// ---------------------------------------------------------------------------
+
+func (x *Exec) interfere(cfg *Config) {
+	st := cfg.st
+	ep := x.ctxEpoch(st)
+	st.heap["$epoch"] = Add(ep, IntLit(1))
+}
+
+// havocLock forgets everything the lock protects (other goroutines may have run).
+func (x *Exec) havocLock(cfg *Config, ld *lockDecl, o *origin) {
+	env := x.lockEnv(cfg, ld, o)
+	c := &FuncContract{Pkg: ld.pkg}
+	for _, h := range ld.havoc {
+		c.Modifies = append(c.Modifies, &Clause{Kind: "modifies", E: h})
+	}
+	x.havocModifies(cfg, env, c)
+}
+
+// seedHeldLocks: a function that requires held(p.mu) for a parameter p whose
+// type has a lock invariant starts with that lock held.
+func (x *Exec) seedHeldLocks(cfg *Config) {
+	f := cfg.frames[0]
+	vals := append([]*ssaParamLike{}, paramLikes(x.fn)...)
+	for _, p := range vals {
+		el := derefType(p.typ)
+		if el == nil || !isStructType(el) {
+			continue
+		}
+		s := el.Underlying().(*types.Struct)
+		for i := 0; i < s.NumFields(); i++ {
+			ld := x.P.lockDecls()[typeName(el)+"."+s.Field(i).Name()]
+			if ld == nil {
+				continue
+			}
+			want := "held(" + p.name + "." + s.Field(i).Name() + ")"
+			found := false
+			for _, r := range x.c.Requires {
+				if strings.Contains(r.Text, want) && !strings.Contains(r.Text, "!"+want) {
+					found = true
+				}
+			}
+			if !found {
+				continue
+			}
+			var base Term
+			if p.free {
+				// captured variable: the cell content
+				cell := f.regs[p.val]
+				a, ok := cell.(AddrV)
+				if !ok {
+					continue
+				}
+				base = Select(x.heapGet(cfg.st, a.Arr, SArr(SInt, SInt)), a.Base)
+			} else {
+				base = x.tv(f.regs[p.val])
+			}
+			cfg.heldLocks = append(cfg.heldLocks, heldLock{ld, &origin{el, i, base}})
+		}
+	}
+}
+
+func (x *Exec) enterSection(cfg *Config, ld *lockDecl, o *origin) {
+	st := cfg.st
+	env := x.lockEnv(cfg, ld, o)
+	// havoc the guarded state: other goroutines may have run
+	x.havocLock(cfg, ld, o)
+	x.interfere(cfg)
+	env.st = st
+	for _, inv := range ld.invs {
+		st.assume(x.specBool(env, inv.E))
+	}
+	if x.c != nil && x.c.Options["old"] == "section" {
+		cfg.old = cfg.st.clone()
+	}
+}
+
+func (x *Exec) leaveSection(cfg *Config, ld *lockDecl, o *origin, why string, pos token.Pos) {
+	env := x.lockEnv(cfg, ld, o)
+	for _, inv := range ld.invs {
+		x.obligeInv(cfg, env, inv.E, "lockinv-"+why, ld.strct+"."+ld.field+": ", inv.Props, pos, 0)
+	}
+}
+
+// obligeInv emits one obligation per conjunct, expanding predicate calls so
+// that failing conjuncts are named.
+func (x *Exec) obligeInv(cfg *Config, env *SpecEnv, e Expr, kind, prefix string, props []string, pos token.Pos, depth int) {
+	for _, cj := range x.splitConj(env, e) {
+		if call, ok := cj.(ECall); ok && depth < 2 {
+			if pd := x.findPred(env, call.Fn); pd != nil && len(pd.Params) == len(call.Args) && pd.Ret == "bool" {
+				penv := &SpecEnv{x: x, cfg: cfg, st: env.st, old: env.old, vars: map[string]SpecVal{}, pkg: x.pkgOf(pd.Pkg), cf: x.P.Contracts[pd.Pkg], depth: env.depth + 1, results: env.results}
+				for k, p := range pd.Params {
+					av := x.spec(env, call.Args[k])
+					if p.Type != "seq" && p.Type != "int" && p.Type != "ref" && p.Type != "bool" && p.Type != "real" {
+						if ty := x.resolveTypeText(penv, p.Type); ty != nil {
+							av.Ty = ty
+						}
+					}
+					penv.vars[p.Name] = av
+				}
+				x.obligeInv(cfg, penv, pd.Body, kind, prefix, props, pos, depth+1)
+				continue
+			}
+		}
+		x.oblige(cfg, kind, prefix+cj.exprString(), x.specBool(env, cj), props, pos)
+	}
+}
+
+func (x *Exec) acquire(cfg *Config, mv Val, pos token.Pos) {
+	tv, ok := mv.(TV)
+	if !ok {
+		return
+	}
+	if ld := x.lockDeclFor(tv.Org); ld != nil {
+		x.enterSection(cfg, ld, tv.Org)
+		cfg.heldLocks = append(cfg.heldLocks, heldLock{ld, tv.Org})
+	} else {
+		x.interfere(cfg)
+	}
+}
+
+func (x *Exec) release(cfg *Config, mv Val, pos token.Pos) {
+	tv, ok := mv.(TV)
+	if !ok {
+		return
+	}
+	if ld := x.lockDeclFor(tv.Org); ld != nil {
+		x.leaveSection(cfg, ld, tv.Org, "unlock", pos)
+		for i, h := range cfg.heldLocks {
+			if h.ld == ld && h.o.Base.S == tv.Org.Base.S {
+				cfg.heldLocks = append(cfg.heldLocks[:i:i], cfg.heldLocks[i+1:]...)
+				break
+			}
+		}
+	}
+}
+
+// mutexOfCond finds the mutex (value and origin) a condition variable field
+// is declared to use.
+func (x *Exec) mutexOfCond(cfg *Config, cv TV) (TV, bool) {
+	if cv.Org == nil {
+		return TV{}, false
+	}
+	x.P.lockDecls()
+	tn, fn := orgKey(cv.Org)
+	mfield, ok := x.P.condLocks[tn+"."+fn]
+	if !ok {
+		return TV{}, false
+	}
+	s := cv.Org.STyp.Underlying().(*types.Struct)
+	for i := 0; i < s.NumFields(); i++ {
+		if s.Field(i).Name() != mfield {
+			continue
+		}
+		if isStructType(s.Field(i).Type()) {
+			return TV{T: x.subRef(cv.Org.STyp, i, cv.Org.Base), Org: &origin{cv.Org.STyp, i, cv.Org.Base}}, true
+		}
+		_, arr, _ := x.fieldArr(cfg.st, cv.Org.STyp, i)
+		return TV{T: Select(arr, cv.Org.Base), Org: &origin{cv.Org.STyp, i, cv.Org.Base}}, true
+	}
+	return TV{}, false
+}
+
+func (x *Exec) condNotify(cfg *Config, cv Val, all bool, pos token.Pos) {
+	tv, ok := cv.(TV)
+	if !ok {
+		return
+	}
+	x.wakeNotify(cfg, tv, all, pos)
+}
+
+func (x *Exec) condWait(cfg *Config, cv Val, pos token.Pos) {
+	tv, ok := cv.(TV)
+	if !ok {
+		unsupported("cond.Wait on unknown condition variable")
+	}
+	m, ok := x.mutexOfCond(cfg, tv)
+	if !ok {
+		unsupported("cond.Wait: no `cond` declaration ties %s to a mutex", x.lockName(tv.T))
+	}
+	held := x.heldArr(cfg.st)
+	x.oblige(cfg, "wait-holds-lock", x.lockName(m.T), Select(held, m.T), nil, pos)
+	cfg.st.assume(Select(held, m.T))
+	ld := x.lockDeclFor(m.Org)
+	if ld == nil {
+		unsupported("cond.Wait: mutex has no lock invariant")
+	}
+	x.wakePark(cfg, tv, ld, m.Org, pos)
+	// a section that parks must not have had an effect (only the last section
+	// of a blocking operation is its linearization point)
+	if ld.stutter != nil {
+		env := x.lockEnv(cfg, ld, m.Org)
+		x.oblige(cfg, "stutter-before-wait", ld.strct+"."+ld.field+": "+ld.stutter.exprString(), x.specBool(env, ld.stutter), nil, pos)
+	}
+	x.leaveSection(cfg, ld, m.Org, "wait", pos)
+	x.enterSection(cfg, ld, m.Org)
+	x.wakeResume(cfg, tv, ld, m.Org, pos)
+}
+
+
+// ---------------------------------------------------------------------------
+// goroutines, channels (minimal models)
+// ---------------------------------------------------------------------------
+
+// spawn: a goroutine whose body starts by blocking on a context's Done
+// channel is remembered as a watcher and run when that context is cancelled on
+// this path (its effect is asynchronous in reality; for the ghost wake-up
+// accounting a pending Broadcast counts as delivered). Other goroutines are
+// not followed.
 func (x *Exec) spawn(cfg *Config, f *Frame, tg target, args []Val, pos token.Pos) {
+	if tg.fn != nil && x.isCtxWatcher(tg.fn) {
+		cfg.st.watchers = append(cfg.st.watchers, &watcher{tg: tg, args: args})
+		x.usedTrusted["goroutine `<-ctx.Done(); cond.Broadcast()` modelled as running when its context is cancelled by this function"] = true
+		return
+	}
 	x.note("go statement at %s: spawned body %s is not verified as part of this function", x.posOf(pos), tg.name)
 }
 
+// isCtxWatcher: the first channel operation of the function is a receive from
+// a Context.Done() channel and it has a single block.
+func (x *Exec) isCtxWatcher(fn *ssa.Function) bool {
+	if len(fn.Blocks) != 1 {
+		return false
+	}
+	sawDone := false
+	for _, in := range fn.Blocks[0].Instrs {
+		switch i := in.(type) {
+		case *ssa.Call:
+			if i.Common().IsInvoke() && i.Common().Method.Name() == "Done" {
+				sawDone = true
+			}
+		case *ssa.UnOp:
+			if i.Op == token.ARROW {
+				return sawDone
+			}
+		}
+	}
+	return false
+}
+
+// runWatchers executes, inline, every watcher goroutine whose context is now
+// cancelled.
+func (x *Exec) runWatchers(cfg *Config, f *Frame) bool {
+	for _, w := range cfg.st.watchers {
+		if w.ran {
+			continue
+		}
+		ctxv := x.watcherCtx(cfg, w)
+		if ctxv == nil {
+			continue
+		}
+		if x.doneNow(cfg.st, *ctxv).S != "true" {
+			continue
+		}
+		w.ran = true
+		body := w.tg.fn
+		nf := &Frame{fn: body, regs: map[ssa.Value]Val{}, block: body.Blocks[0], depth: f.depth + 1, isDefer: true}
+		x.indexDebug(body)
+		for k, p := range body.Params {
+			nf.regs[p] = w.args[k]
+		}
+		for k, fv := range body.FreeVars {
+			nf.regs[fv] = x.coerceParam(cfg, w.tg.binds[k], fv.Type())
+		}
+		cfg.frames = append(cfg.frames, nf)
+		return true
+	}
+	return false
+}
+
+// watcherCtx finds the context value a watcher waits on: the captured
+// variable (or parameter) of interface type context.Context.
+func (x *Exec) watcherCtx(cfg *Config, w *watcher) *Term {
+	fn := w.tg.fn
+	for k, fv := range fn.FreeVars {
+		el := derefType(fv.Type())
+		if el != nil && typeName(el) == "context.Context" && k < len(w.tg.binds) {
+			if a, ok := w.tg.binds[k].(AddrV); ok {
+				t := Select(x.heapGet(cfg.st, a.Arr, SArr(SInt, SInt)), a.Base)
+				return &t
+			}
+		}
+	}
+	for k, p := range fn.Params {
+		if typeName(p.Type()) == "context.Context" && k < len(w.args) {
+			t := x.tv(w.args[k])
+			return &t
+		}
+	}
+	return nil
+}
+
+// selectOp models a non-blocking select over receive cases on context Done
+// channels: a case is taken iff its channel is ready.
 func (x *Exec) selectOp(cfg *Config, f *Frame, i *ssa.Select) ([]*Config, bool) {
-	unsupported("select")
-	return nil, true
+	if i.Blocking {
+		unsupported("blocking select")
+	}
+	if len(i.States) != 1 || i.States[0].Dir != types.RecvOnly {
+		unsupported("select with %d cases", len(i.States))
+	}
+	ch := x.tv(x.get(f, i.States[0].Chan))
+	ready := x.chanReady(cfg, ch)
+	idx := Ite(ready, x.intLit(0, x.intSort(types.Typ[types.Int])), x.intLit(-1, x.intSort(types.Typ[types.Int])))
+	tup := TupV{TV{T: idx}, TV{T: False}}
+	// received value slots
+	rt := i.Type().(*types.Tuple)
+	for k := 2; k < rt.Len(); k++ {
+		tup = append(tup, x.zeroOf(rt.At(k).Type()))
+	}
+	f.regs[i] = tup
+	f.idx++
+	return nil, false
+}
+
+// chanReady: a context's Done channel is ready iff the context is done now.
+func (x *Exec) chanReady(cfg *Config, ch Term) Term {
+	if strings.HasPrefix(ch.S, "(ctx.donechan ") {
+		ctx := Term{ch.S[len("(ctx.donechan ") : len(ch.S)-1], SInt}
+		return x.doneNow(cfg.st, ctx)
+	}
+	return x.d.Fresh("chanready", SBool)
 }
 
 func (x *Exec) sendOp(cfg *Config, f *Frame, i *ssa.Send) { unsupported("channel send") }
 
 func (x *Exec) recvOp(cfg *Config, f *Frame, i *ssa.UnOp) Val {
-	unsupported("channel receive")
+	ch := x.tv(x.get(f, i.X))
+	if strings.HasPrefix(ch.S, "(ctx.donechan ") {
+		ctx := Term{ch.S[len("(ctx.donechan ") : len(ch.S)-1], SInt}
+		if x.doneNow(cfg.st, ctx).S == "true" {
+			// Done channels carry no values: the receive yields the zero value
+			if i.CommaOk {
+				return TupV{x.zeroOf(i.Type().(*types.Tuple).At(0).Type()), TV{T: False}}
+			}
+			return x.zeroOf(i.Type())
+		}
+	}
+	unsupported("blocking channel receive")
 	return nil
 }
 
 func (x *Exec) closeChan(cfg *Config, ch Term, pos token.Pos) { unsupported("close(chan)") }
 
-// guardedAccess emits the held(mutex) obligation for accesses to guarded fields.
-func (x *Exec) guardedAccess(cfg *Config, f *Frame, addr ssa.Value, write bool, pos token.Pos) {}
+// ---------------------------------------------------------------------------
+// guarded_by obligations (C13)
+// ---------------------------------------------------------------------------
+
+func (P *Program) guardFor(styp types.Type, field string) (string, bool) {
+	if P.guards == nil {
+		P.guards = map[string]string{}
+		for short, cf := range P.Contracts {
+			for _, g := range cf.Guards {
+				for _, f := range g.Fields {
+					P.guards[short+"."+g.Struct+"."+f] = g.Mutex
+				}
+			}
+		}
+	}
+	m, ok := P.guards[typeName(styp)+"."+field]
+	return m, ok
+}
+
+func (x *Exec) guardedAccess(cfg *Config, addr Val, write bool, what string, pos token.Pos) {
+	a, ok := addr.(AddrV)
+	if !ok || a.Kind != aField || a.STyp == nil {
+		return
+	}
+	fname, _ := fieldNameOf(a.STyp, a.FIdx)
+	mfield, ok := x.P.guardFor(a.STyp, fname)
+	if !ok {
+		return
+	}
+	s := a.STyp.Underlying().(*types.Struct)
+	var m Term
+	found := false
+	if strings.HasPrefix(mfield, "ghost:") {
+		g := x.ghostField(typeName(a.STyp), strings.TrimPrefix(mfield, "ghost:"))
+		if g == nil {
+			unsupported("guard ghost field %s not declared for %s", mfield, typeName(a.STyp))
+		}
+		m = x.ghostRead(cfg.st, g, a.Base).T
+		found = true
+	}
+	for i := 0; i < s.NumFields() && !found; i++ {
+		if s.Field(i).Name() != mfield {
+			continue
+		}
+		found = true
+		if isStructType(s.Field(i).Type()) {
+			m = x.subRef(a.STyp, i, a.Base)
+		} else {
+			_, arr, _ := x.fieldArr(cfg.st, a.STyp, i)
+			m = Select(arr, a.Base)
+		}
+	}
+	if !found {
+		unsupported("guard mutex field %s not found in %s", mfield, typeName(a.STyp))
+	}
+	rw := "read"
+	if write {
+		rw = "write"
+	}
+	held := Select(x.heldArr(cfg.st), m)
+	if !write {
+		held = Or(held, Select(x.heapGet(cfg.st, "$rheld", SArr(SInt, SBool)), m))
+	}
+	// objects allocated by this invocation are not yet shared
+	top0 := x.d.Const("H0!$top", SInt)
+	goal := Or(held, Gt(a.Base, top0))
+	x.oblige(cfg, "guarded-"+rw, fmt.Sprintf("%s.%s by %s", typeName(a.STyp), fname, mfield), goal, []string{"C13"}, pos)
+}
